@@ -625,9 +625,12 @@ MUTANTS = [
       "            dphi = np.array([-4. * y, 4 - 4. * x - 8. * y])"),
      "C03-R1"),
     ("ElementHex1: two vertex functions exchanged",
-     (_E + "element_hex/element_hex1.py",
-      "        if i == 0:\n            phi = x * y * z\n",
-      "        if i == 7:\n            phi = x * y * z\n"), None),
+     [(_E + "element_hex/element_hex1.py", "        if i == 0:",
+       "        if i == 70:"),
+      (_E + "element_hex/element_hex1.py", "        elif i == 7:",
+       "        elif i == 0:"),
+      (_E + "element_hex/element_hex1.py", "        if i == 70:",
+       "        if i == 7:")], None),
     ("MeshTri1 no longer sorts its cells",
      ("skfem/mesh/mesh_tri_1.py", "    sort_t: bool = True\n",
       "    sort_t: bool = False\n"), "C03-R2"),
@@ -660,8 +663,12 @@ MUTANTS = [
      (_E + "element_hdiv.py", "        ix = int(i / self.facet_dofs)\n",
       "        ix = int(i / (self.facet_dofs + 1))\n"), "C03-R3"),
     ("ElementTriP3: the two DOFs of one edge exchanged",
-     (_E + "element_tri/element_tri_p3.py", "        elif i == 3:",
-      "        elif i == 4 - 0:"), None),
+     [(_E + "element_tri/element_tri_p3.py", "        elif i == 3:",
+       "        elif i == 40:"),
+      (_E + "element_tri/element_tri_p3.py", "        elif i == 4:",
+       "        elif i == 3:"),
+      (_E + "element_tri/element_tri_p3.py", "        elif i == 40:",
+       "        elif i == 4:")], None),
 ]
 TWINS = [
     ("H(div) orientation spelled with np.where",
